@@ -36,7 +36,7 @@ CLAIMED = {
          "serializable write phases never overlap. Real tasks (context-manager form, ONE shared decorated function, nested forms, direct commands) run under the "
          "deterministic scheduler with every backend command gated; the command log with store snapshots is replayed on the model and judged by an oracle built from a "
          "sequential reference of one block. Thorough tier enumerates every schedule of selected 2-task programs per mode.",
-         "asyncio / contextvars / gather are the interpreter's (partial: theorems about the model + replayed logs); exactly-once commit per normally-ended block is checked by the oracle on runs, not proved; one backend, integer values without TTL.",
+         "asyncio / contextvars / gather are the interpreter's (partial: theorems about the model + replayed logs); a block commits at most once (proved); that a normally-ended block does issue its commit commands is checked by the oracle on runs, not proved; one backend, integer values without TTL.",
          "Coq proof (three stacked invariants over all schedules) + command-log replay from scheduled real tasks, exhaustive schedule enumeration in the thorough tier", "3/C05"),
  "C07": ("Theorems for every event sequence (any number of callers and keys; calls, task starts, body resumptions, done-callbacks and cancellations in any order, "
          "each loop callback its own event - finer than any real schedule): at most one body per key executes (8-part invariant by induction); a call made while a task "
